@@ -60,6 +60,11 @@ func avcDeviations() []dev {
 		})
 	}
 	add("sps.compat=0xc0", func(s *h264syn.SPS, _ *h264syn.PPS, _ *h264syn.Slice) { s.Compat = 0xc0 })
+	// each constraint_set flag on its own (set0..set5) and all six
+	for _, cv := range []uint{0x80, 0x20, 0x10, 0x08, 0x04, 0xfc} {
+		cv := cv
+		add(fmt.Sprintf("sps.compat=%#02x", cv), func(s *h264syn.SPS, _ *h264syn.PPS, _ *h264syn.Slice) { s.Compat = cv })
+	}
 	add("sps.level=255", func(s *h264syn.SPS, _ *h264syn.PPS, _ *h264syn.Slice) { s.Level = 255 })
 	for _, id := range []uint{0, 31} {
 		id := id
